@@ -9,6 +9,22 @@ KEEP = ("            cert = validate_grid_manager_certificate(key, alleged_cert)
 DECIDE = ("            if pc == public_key:\n                if expires > now:\n                    # not-expired\n"
           "                    return True\n")
 
+SC = "src/allmydata/storage_client.py"
+UP_BODY = ("        # if we have no Grid Manager keys configured, choice is easy\n        if self._grid_manager_verifier is None:\n"
+           "            return True\n        return self._grid_manager_verifier()\n")
+TAIL_N = "\n    def get_permutation_seed(self):\n        return self._storage.permutation_seed\n"
+TAIL_H = "\n    # Special methods used by copy.copy() and copy.deepcopy()."
+UP_N = UP_BODY + TAIL_N        # NativeStorageServer.upload_permitted
+UP_H = UP_BODY + TAIL_H        # HTTPNativeStorageServer.upload_permitted
+DOC = ('        """\n        If our client is configured with Grid Manager public-keys, we will\n'
+       "        only upload to storage servers that have a currently-valid\n        certificate signed by at least one of the Grid Managers we\n"
+       '        accept.\n\n        :return: True if we should use this server for uploads, False\n            otherwise.\n        """\n')
+INIT_N = "        self._grid_manager_verifier = grid_manager_verifier\n\n        self._storage = _make_storage_system("
+INIT_H = "        self._grid_manager_verifier = grid_manager_verifier\n        self._storage_client_factory = StorageClientFactory("
+UP_MEMO = ("        # only do the certificate processing once per server\n        if self._upload_permitted is None:\n"
+           "            if self._grid_manager_verifier is None:\n                self._upload_permitted = True\n            else:\n"
+           "                self._upload_permitted = self._grid_manager_verifier()\n        return self._upload_permitted\n")
+
 MUTANTS = [
     # ---- C33.1 signature gate
     M("badsig-swallowed", GM, "    except ed25519.BadSignature:\n        return None\n",
@@ -65,6 +81,75 @@ MUTANTS = [
       "    data = alleged_cert.certificate\n    try:\n        ed25519.verify_signature(gm_key, alleged_cert.signature, data)\n"
       "    except ed25519.BadSignature:\n        return None\n    return json.loads(data)\n", None),
     M("benign-no-keys-len", GM, "    if not keys:\n        return lambda: True\n", "    if len(keys) == 0:\n        return lambda: True\n", None),
+    # ---- C33.3 the certificate judged is the loop's certificate (half-finished rename: `cert` is the factory's variable)
+    M("loopvar-half-renamed", GM, "        for cert in valid_certs:\n            expires = datetime.fromisoformat(cert[\"expires\"])",
+      "        for vc in valid_certs:\n            expires = datetime.fromisoformat(cert[\"expires\"])", "C33.3"),
+    M("loopvar-renamed-expiry-left-behind", GM,
+      "        for cert in valid_certs:\n            expires = datetime.fromisoformat(cert[\"expires\"])\n            pc = cert['public_key'].encode('ascii')\n",
+      "        for vc in valid_certs:\n            expires = datetime.fromisoformat(cert[\"expires\"])\n            pc = vc['public_key'].encode('ascii')\n", "C33.3"),
+    M("expiry-parsed-in-factory", GM, "            if cert is not None:\n                valid_certs.append(cert)",
+      "            if cert is not None:\n                expires = datetime.fromisoformat(cert[\"expires\"])\n                valid_certs.append(cert)", "C33.3",
+      edits=[(GM, "        for cert in valid_certs:\n            expires = datetime.fromisoformat(cert[\"expires\"])\n", "        for cert in valid_certs:\n")]),
+    # ---- C33.5 the answer is computed when the question is asked
+    M("verdict-memoised-foolscap", SC, UP_N, UP_MEMO + TAIL_N, "C33.5",
+      edits=[(SC, INIT_N, "        self._upload_permitted = None\n" + INIT_N)]),
+    M("verdict-memoised-http", SC, UP_H, UP_MEMO + TAIL_H, "C33.5",
+      edits=[(SC, INIT_H, "        self._upload_permitted = None\n" + INIT_H)]),
+    M("only-yes-remembered", SC, UP_N,
+      "        if self._grid_manager_verifier is None:\n            return True\n        if self._was_permitted:\n            return True\n"
+      "        self._was_permitted = self._grid_manager_verifier()\n        return self._was_permitted\n" + TAIL_N, "C33.5",
+      edits=[(SC, INIT_N, "        self._was_permitted = False\n" + INIT_N)]),
+    M("asked-at-construction", SC, UP_H, "        return self._permitted\n" + TAIL_H, "C33.5",
+      edits=[(SC, INIT_H, "        self._permitted = True if grid_manager_verifier is None else grid_manager_verifier()\n" + INIT_H)]),
+    M("verdict-lru-cached", SC, "    def upload_permitted(self):\n" + DOC + UP_N, "    @lru_cache(maxsize=None)\n    def upload_permitted(self):\n" + DOC + UP_N, "C33.5",
+      edits=[(SC, "from os import urandom\n", "from os import urandom\nfrom functools import lru_cache\n")]),
+    M("predicate-lru-cached", GM, "    def validate():\n", "    @functools.lru_cache(maxsize=None)\n    def validate():\n", "C33.5",
+      edits=[(GM, "import sys\n", "import sys\nimport functools\n")]),
+    M("clock-cached", GM, "def current_datetime_with_zone():", "@functools.cache\ndef current_datetime_with_zone():", "C33.5",
+      edits=[(GM, "import sys\n", "import sys\nimport functools\n")]),
+    M("verifier-attr-rebound", SC, UP_N,
+      "        if self._grid_manager_verifier is None:\n            return True\n        verdict = self._grid_manager_verifier()\n"
+      "        self._grid_manager_verifier = lambda: verdict\n        return verdict\n" + TAIL_N, "C33.5"),
+    M("unknown-decorator-undecided", SC, "    def upload_permitted(self):\n" + DOC + UP_N, "    @provides\n    def upload_permitted(self):\n" + DOC + UP_N, "ANALYSIS-ERROR"),
+    # ---- C33.6 what is handed to the server objects
+    M("answer-frozen-at-announcement", SC, "                grid_manager_verifier=gm_verifier,\n",
+      "                grid_manager_verifier=lambda: permitted,\n", "C33.6",
+      edits=[(SC, "        if self._should_we_use_http(self.node_config, server[\"ann\"]):\n            s = HTTPNativeStorageServer(",
+              "        permitted = gm_verifier()\n        if self._should_we_use_http(self.node_config, server[\"ann\"]):\n            s = HTTPNativeStorageServer(")]),
+    M("answer-passed-not-predicate", SC, "            self.storage_client_config,\n            gm_verifier,\n        )",
+      "            self.storage_client_config,\n            gm_verifier(),\n        )", "C33.6"),
+    M("clock-frozen-at-announcement", SC,
+      "            \"pub-{}\".format(str(server_id, \"ascii\")).encode(\"ascii\"),  # server_id is v0-<key> not pub-v0-key .. for reasons?\n        )",
+      "            \"pub-{}\".format(str(server_id, \"ascii\")).encode(\"ascii\"),  # server_id is v0-<key> not pub-v0-key .. for reasons?\n"
+      "            now_fn=lambda: announced,\n        )", "C33.6",
+      edits=[(SC, "        assert isinstance(server_id, bytes)\n        gm_verifier = create_grid_manager_verifier(",
+              "        assert isinstance(server_id, bytes)\n        announced = datetime.now(timezone.utc)\n        gm_verifier = create_grid_manager_verifier("),
+             (SC, "from os import urandom\n", "from os import urandom\nfrom datetime import datetime, timezone\n")]),
+    M("clock-naive-at-call-site", SC,
+      "            \"pub-{}\".format(str(server_id, \"ascii\")).encode(\"ascii\"),  # server_id is v0-<key> not pub-v0-key .. for reasons?\n        )",
+      "            \"pub-{}\".format(str(server_id, \"ascii\")).encode(\"ascii\"),  # server_id is v0-<key> not pub-v0-key .. for reasons?\n"
+      "            now_fn=time.time,\n        )", "C33.6"),
+    # ---- benign (C33.5 / C33.6)
+    M("benign-verdict-hoisted", SC, UP_N,
+      "        verifier = self._grid_manager_verifier\n        if verifier is None:\n            return True\n"
+      "        verdict = verifier()\n        return verdict\n" + TAIL_N, None),
+    M("benign-verdict-one-expression", SC, UP_H,
+      "        return self._grid_manager_verifier is None or self._grid_manager_verifier()\n" + TAIL_H, None),
+    M("benign-verdict-conditional-expression", SC, UP_H,
+      "        return bool(self._grid_manager_verifier()) if self._grid_manager_verifier is not None else True\n" + TAIL_H, None),
+    M("benign-verifier-inlined", SC, "                grid_manager_verifier=gm_verifier,\n",
+      "                grid_manager_verifier=verifier,\n", None,
+      edits=[(SC, "        if self._should_we_use_http(self.node_config, server[\"ann\"]):\n            s = HTTPNativeStorageServer(",
+              "        verifier = gm_verifier\n        if self._should_we_use_http(self.node_config, server[\"ann\"]):\n            s = HTTPNativeStorageServer(")]),
+    M("benign-real-clock-passed", SC,
+      "            \"pub-{}\".format(str(server_id, \"ascii\")).encode(\"ascii\"),  # server_id is v0-<key> not pub-v0-key .. for reasons?\n        )",
+      "            \"pub-{}\".format(str(server_id, \"ascii\")).encode(\"ascii\"),  # server_id is v0-<key> not pub-v0-key .. for reasons?\n"
+      "            now_fn=current_datetime_with_zone,\n        )", None,
+      edits=[(SC, "    create_grid_manager_verifier, SignedCertificate\n", "    create_grid_manager_verifier, SignedCertificate, current_datetime_with_zone\n")]),
+    M("benign-verifier-asked-again-by-wrapper", SC, "                grid_manager_verifier=gm_verifier,\n",
+      "                grid_manager_verifier=lambda: gm_verifier(),\n", None),
+    M("benign-asked-at-construction-for-logging-only", SC, INIT_H,
+      "        self._permitted_when_announced = None if grid_manager_verifier is None else grid_manager_verifier()\n" + INIT_H, None),
     # ---- vanished anchor
     M("vanish-factory", GM, "def create_grid_manager_verifier(keys, certs, public_key, now_fn=None, bad_cert=None):",
       "def create_grid_manager_verifier2(keys, certs, public_key, now_fn=None, bad_cert=None):", "ANALYSIS-ERROR"),
